@@ -30,7 +30,7 @@ RULE = (
 STATE_MEASURE = "(operation kind sequence, fault site) and heap shapes (who was copied from whom, cov/maneuver presence)"
 PROBES = [
     "fault_fired_natural", "fault_fired_injected", "atomic_failure_checked", "drag_cov_with_state",
-    "mutation_with_relatives", "pickle_across_nodes", "pickle_with_cov", "access_checked", "foreign_name_rejected", "still_usable_after_failure", "infos_checked", "form_call_checked", "cov_built_from_cov", "heap_object_registered_as_frame", "converted_into_frame_of_heap_object", "copy_module_used", "local_covariance_against_own_axes", "date_assigned", "hill_frame_state_pickled",
+    "mutation_with_relatives", "pickle_across_nodes", "pickle_with_cov", "access_checked", "foreign_name_rejected", "still_usable_after_failure", "infos_checked", "form_call_checked", "cov_built_from_cov", "heap_object_registered_as_frame", "converted_into_frame_of_heap_object", "copy_module_used", "infos_result_changed_by_caller", "local_covariance_against_own_axes", "date_assigned", "hill_frame_state_pickled",
 ]
 REAL_VS_STUB = "real: StateVector/Orbit/Cov/forms/frames/propagators, pickle; stub: none (the injected faults are raising wrappers around real callees in the node's private package copy); model: snapshots (bytes, labels, identities) of every heap object before each operation"
 ASSUMPTIONS = ["asynchronous exceptions (KeyboardInterrupt/MemoryError at an arbitrary bytecode) are not injected: the statement speaks of a form or frame change that fails", "mutating the inside of a Man object shared by a copy and its source is not exercised (list-level independence only)"]
@@ -1045,6 +1045,20 @@ class Heap:
         self.ctx.checks += 1
         if snap(o) != before[j]:
             self.ctx.violate("pure-conversion", {"kind": "receiver_changed_by_infos"}, f"{where}: reading obj.infos modified the object")
+            return
+        # what infos hands out (the state in keplerian / spherical form) belongs to the caller
+        for nm_ in ("kep", "sphe"):
+            try:
+                k_ = getattr(o.infos, nm_)
+                k_[0] = float(k_[0]) * 1.001
+                k_.form = "cartesian"
+            except Exception:  # noqa
+                continue
+            self.ctx.checks += 1
+            self.ctx.probe("infos_result_changed_by_caller")
+            if snap(o) != before[j]:
+                self.ctx.violate("no-aliasing", {"kind": "infos_result_aliases_receiver", "which": nm_}, f"{where}: changing what obj.infos.{nm_} returned changed the object itself (form {before[j]['form']})")
+                return
 
     def op_cov_from_cov(self, j, o, op, fail, before, where, _):
         """Cov(other_state, state.cov, None): the constructor's copy form gives the other state a covariance of its own."""
